@@ -75,6 +75,11 @@ CHECKS = {
          "For 65 (quick) / 104 (thorough) kinds - SuperMinHash f32/f64, SuperMinHash2 u32/u64, SetSketcher u8/u16/u32 with three parameter sets, both densified sketchers f32/f64, sizes {1,2,3,7,64} (+5,16,200) - every stream of length 1..5 (6) over 5 (6) symbols (4-5 single items and a burst of 12 fresh items that drives a_upper / lower_k / nb_empty into their regimes) is run on the real sketcher item-wise, under every one of the 2^(L-1) chunkings into slice calls, and interleaved with empty slice calls; for the densified sketchers item-wise + end_sketch versus one slice call. All streams with the same set of distinct items must produce the bit-identical sketch (all views, cardinality statistics); positions of hash-storing sketches must hold hashes of streamed items (2.8e6 executions quick).",
          "SetSketch's overflow counter and lazily maintained lower bound are diagnostics, not part of the sketch (C05 speaks about them); longer streams assumed alike",
          "DESIGN.md §4 C04"),
+ "C05": ("model_checking",
+         "exhaustive enumeration: all subsets against the join of real single-item sketches; all operation sequences over three instances against a set model",
+         "Join: every non-empty subset of a 10 (12) item alphabet, all orders for |S|<=4 and four canonical orders above, is sketched with the real code and compared with the position-wise min (SuperMinHash f32/f64) resp. max (SetSketcher u8/u16/u32, 5 (b,q) sets incl. clipping q=3, m in {1,5,16,(2,40)}) of the REAL single-item sketches; the reported lowest register must not exceed the true minimum. Merge: ALL sequences up to depth 5 (6) over 18 operations on three same-parameter instances (2 shared items, 1 own item and 1 overlapping burst per instance; 6 ordered merges), 8.4e6 sequences quick: the final state of every instance must equal the join over a set model in which merge is union, and the estimate must not decrease on the last operation. Commutativity, associativity, idempotence, merge = sketch of the union and streaming-after-merge are asserted on all triples of a 16-set family with empty sides; merges between 32 parameter pairs differing in exactly one of b,m,a,q (u16 and overflowing u8 registers) must be refused and leave signature, overflow count, lowest register and estimate unchanged.",
+         "differences below 1e-6 relative are not claimed as 'different parameters'; larger alphabets / deeper sequences assumed alike",
+         "DESIGN.md §4 C05"),
 }
 PENDING_REASON = "check not built yet in this revision (see DESIGN.md §4 for the planned model-checking approach)"
 
